@@ -336,68 +336,60 @@ def MatcherArgs.toTableArgs (a : MatcherArgs) : TableArgs :=
   { ltable := a.ltable, rtable := a.rtable, lKey := a.lKey, rKey := a.rKey, lAttr := a.lAttr, rAttr := a.rAttr,
     lOut := a.lOut, rOut := a.rOut, lPre := a.lPre, rPre := a.rPre, nJobs := a.nJobs }
 
-/-- looking a key up in the dict built from the projected left table = finding the source row with
-    that key and projecting it -/
-theorem matcherLRows_lookup (a : MatcherArgs) (l : Frame) (hk : (l.col a.lKey).Nodup) (k : Cell) :
-    Dict.get? (buildDict (matcherLRows a l) ((matcherLProj a).idxOf a.lKey)) k
-      = (l.rows.find? (fun s => s.cell (l.colIdx a.lKey) == k)).map
+/-- looking a candidate key up in the dict built from the projected left table = finding the source row whose key is
+    Python-equal to it (`1.0` finds the row of key `1`) and projecting it -/
+theorem matcherLRows_lookup (a : MatcherArgs) (l : Frame) (hk : PyDistinct (l.col a.lKey)) (k : Cell) :
+    Dict.getPy? (buildDict (matcherLRows a l) ((matcherLProj a).idxOf a.lKey)) k
+      = (l.rows.find? (fun s => (s.cell (l.colIdx a.lKey)).pyEq k)).map
           (fun s => ((matcherLProj a).map l.colIdx).map s.cell) := by
-  have hnd : ((matcherLRows a l).map (·.cell ((matcherLProj a).idxOf a.lKey))).Nodup := by
+  have hnd : PyDistinct ((matcherLRows a l).map (·.cell ((matcherLProj a).idxOf a.lKey))) := by
     rw [matcherLRows_keys]; exact hk
-  cases hf : l.rows.find? (fun s => s.cell (l.colIdx a.lKey) == k) with
+  cases hf : l.rows.find? (fun s => (s.cell (l.colIdx a.lKey)).pyEq k) with
   | none =>
-    have hnot : k ∉ (matcherLRows a l).map (·.cell ((matcherLProj a).idxOf a.lKey)) := by
+    have hnot : ¬ PyMem k ((matcherLRows a l).map (·.cell ((matcherLProj a).idxOf a.lKey))) := by
       rw [matcherLRows_keys]
-      intro hmem
+      rintro ⟨k', hmem, he⟩
       obtain ⟨s, hs, rfl⟩ := List.mem_map.1 hmem
       have := List.find?_eq_none.1 hf s hs
-      simp at this
+      exact this he
     rw [buildDict_get_none _ _ _ hnot]
     rfl
   | some s =>
     have hs := List.mem_of_find?_eq_some hf
-    have hkey : s.cell (l.colIdx a.lKey) = k := by
-      have := List.find?_some hf
-      simpa using this
-    have hget := buildDict_get (matcherLRows a l) ((matcherLProj a).idxOf a.lKey) hnd
+    have hkey : (s.cell (l.colIdx a.lKey)).pyEq k = true := List.find?_some (p := fun s : Row => (s.cell (l.colIdx a.lKey)).pyEq k) hf
+    have hcell : Row.cell (((matcherLProj a).map l.colIdx).map s.cell) ((matcherLProj a).idxOf a.lKey) = s.cell (l.colIdx a.lKey) :=
+      RT.lRow_key a.toTableArgs l s
+    rw [buildDict_get (matcherLRows a l) ((matcherLProj a).idxOf a.lKey) hnd
       (((matcherLProj a).map l.colIdx).map s.cell)
-      (List.mem_map_of_mem (f := fun row : Row => ((matcherLProj a).map l.colIdx).map row.cell) hs)
-    have hcell : Row.cell (((matcherLProj a).map l.colIdx).map s.cell) ((matcherLProj a).idxOf a.lKey) = k := by
-      rw [← hkey]
-      exact RT.lRow_key a.toTableArgs l s
-    rw [hcell] at hget
-    rw [hget]
+      (List.mem_map_of_mem (f := fun row : Row => ((matcherLProj a).map l.colIdx).map row.cell) hs) k
+      (by rw [hcell]; exact hkey)]
     rfl
 
-theorem matcherRRows_lookup (a : MatcherArgs) (r : Frame) (hk : (r.col a.rKey).Nodup) (k : Cell) :
-    Dict.get? (buildDict (matcherRRows a r) ((matcherRProj a).idxOf a.rKey)) k
-      = (r.rows.find? (fun s => s.cell (r.colIdx a.rKey) == k)).map
+theorem matcherRRows_lookup (a : MatcherArgs) (r : Frame) (hk : PyDistinct (r.col a.rKey)) (k : Cell) :
+    Dict.getPy? (buildDict (matcherRRows a r) ((matcherRProj a).idxOf a.rKey)) k
+      = (r.rows.find? (fun s => (s.cell (r.colIdx a.rKey)).pyEq k)).map
           (fun s => ((matcherRProj a).map r.colIdx).map s.cell) := by
-  have hnd : ((matcherRRows a r).map (·.cell ((matcherRProj a).idxOf a.rKey))).Nodup := by
+  have hnd : PyDistinct ((matcherRRows a r).map (·.cell ((matcherRProj a).idxOf a.rKey))) := by
     rw [matcherRRows_keys]; exact hk
-  cases hf : r.rows.find? (fun s => s.cell (r.colIdx a.rKey) == k) with
+  cases hf : r.rows.find? (fun s => (s.cell (r.colIdx a.rKey)).pyEq k) with
   | none =>
-    have hnot : k ∉ (matcherRRows a r).map (·.cell ((matcherRProj a).idxOf a.rKey)) := by
+    have hnot : ¬ PyMem k ((matcherRRows a r).map (·.cell ((matcherRProj a).idxOf a.rKey))) := by
       rw [matcherRRows_keys]
-      intro hmem
+      rintro ⟨k', hmem, he⟩
       obtain ⟨s, hs, rfl⟩ := List.mem_map.1 hmem
       have := List.find?_eq_none.1 hf s hs
-      simp at this
+      exact this he
     rw [buildDict_get_none _ _ _ hnot]
     rfl
   | some s =>
     have hs := List.mem_of_find?_eq_some hf
-    have hkey : s.cell (r.colIdx a.rKey) = k := by
-      have := List.find?_some hf
-      simpa using this
-    have hget := buildDict_get (matcherRRows a r) ((matcherRProj a).idxOf a.rKey) hnd
+    have hkey : (s.cell (r.colIdx a.rKey)).pyEq k = true := List.find?_some (p := fun s : Row => (s.cell (r.colIdx a.rKey)).pyEq k) hf
+    have hcell : Row.cell (((matcherRProj a).map r.colIdx).map s.cell) ((matcherRProj a).idxOf a.rKey) = s.cell (r.colIdx a.rKey) :=
+      RT.rRow_key a.toTableArgs r s
+    rw [buildDict_get (matcherRRows a r) ((matcherRProj a).idxOf a.rKey) hnd
       (((matcherRProj a).map r.colIdx).map s.cell)
-      (List.mem_map_of_mem (f := fun row : Row => ((matcherRProj a).map r.colIdx).map row.cell) hs)
-    have hcell : Row.cell (((matcherRProj a).map r.colIdx).map s.cell) ((matcherRProj a).idxOf a.rKey) = k := by
-      rw [← hkey]
-      exact RT.rRow_key a.toTableArgs r s
-    rw [hcell] at hget
-    rw [hget]
+      (List.mem_map_of_mem (f := fun row : Row => ((matcherRProj a).map r.colIdx).map row.cell) hs) k
+      (by rw [hcell]; exact hkey)]
     rfl
 
 /-- what `apply_matcher` does with a candidate row whose `_id` cell is `id` and whose keys name the source
@@ -419,12 +411,41 @@ def matcherPairRaw (a : MatcherArgs) (tok : Option (String → List Tok)) (sim :
     let s := sim la ra
     if compFn a.compOp s a.threshold then some (out (scoreCell s)) else none
 
-theorem matcherRowSpec_proj (a : MatcherArgs) (tok : Option (String → List Tok)) (sim : SimArg → SimArg → PyV)
-    (l r : Frame) (cr ls rs : Row) :
+/-- `matcherPairRaw` for a candidate row whose key cells are `lk`, `rk` — Python-equal to, but possibly different
+    objects from, the keys of `ls`, `rs` (`1.0` against `1`): WITHOUT output attributes `_apply_matcher_split` writes
+    the CANDSET's key values into the output row (`[candset_row[0], l_id, r_id]`), WITH output attributes the
+    TABLES' (`get_output_row_from_tables(l_row, r_row, …)`); nothing else depends on `lk`, `rk` -/
+def matcherPairRawK (a : MatcherArgs) (tok : Option (String → List Tok)) (sim : SimArg → SimArg → PyV)
+    (l r : Frame) (id lk rk : Cell) (ls rs : Row) : Option Row :=
+  let lv := ls.cell (l.colIdx a.lAttr)
+  let rv := rs.cell (r.colIdx a.rAttr)
+  let hasOut := (removeRedundantAttrs a.lOut a.lKey).isSome || (removeRedundantAttrs a.rOut a.rKey).isSome
+  let out (score : Cell) : Row :=
+    withScore a.outSimScore
+      (id :: ([if hasOut then ls.cell (l.colIdx a.lKey) else lk, if hasOut then rs.cell (r.colIdx a.rKey) else rk] ++
+        ((removeRedundantAttrs a.lOut a.lKey).getD []).map (fun x => ls.cell (l.colIdx x)) ++
+        ((removeRedundantAttrs a.rOut a.rKey).getD []).map (fun x => rs.cell (r.colIdx x)))) score
+  if lv.isMissing || rv.isMissing then (if a.allowMissing then some (out .missing) else none)
+  else
+    let (la, ra) : SimArg × SimArg := match tok with
+      | some tk => (.toks (tk lv.strVal), .toks (tk rv.strVal))
+      | none => (.raw lv, .raw rv)
+    let s := sim la ra
+    if compFn a.compOp s a.threshold then some (out (scoreCell s)) else none
+
+/-- identical keys: the candidate's key cells ARE the tables' -/
+theorem matcherPairRawK_self (a : MatcherArgs) (tok : Option (String → List Tok)) (sim : SimArg → SimArg → PyV)
+    (l r : Frame) (id : Cell) (ls rs : Row) :
+    matcherPairRawK a tok sim l r id (ls.cell (l.colIdx a.lKey)) (rs.cell (r.colIdx a.rKey)) ls rs
+      = matcherPairRaw a tok sim l r id ls rs := by
+  unfold matcherPairRawK matcherPairRaw
+  simp only [ite_self]
+
+theorem matcherRowSpec_projK (a : MatcherArgs) (tok : Option (String → List Tok)) (sim : SimArg → SimArg → PyV)
+    (l r : Frame) (cr ls rs : Row) (lk rk : Cell) :
     matcherRowSpec a (matcherOutCfg a) tok sim ((matcherLProj a).idxOf a.lAttr) ((matcherRProj a).idxOf a.rAttr) cr
-        (((matcherLProj a).map l.colIdx).map ls.cell) (((matcherRProj a).map r.colIdx).map rs.cell)
-        (ls.cell (l.colIdx a.lKey)) (rs.cell (r.colIdx a.rKey))
-      = matcherPairRaw a tok sim l r (cr.cell 0) ls rs := by
+        (((matcherLProj a).map l.colIdx).map ls.cell) (((matcherRProj a).map r.colIdx).map rs.cell) lk rk
+      = matcherPairRawK a tok sim l r (cr.cell 0) lk rk ls rs := by
   have e1 : Row.cell (((matcherLProj a).map l.colIdx).map ls.cell) ((matcherLProj a).idxOf a.lAttr)
       = ls.cell (l.colIdx a.lAttr) := RT.lRow_attr a.toTableArgs l ls
   have e2 : Row.cell (((matcherRProj a).map r.colIdx).map rs.cell) ((matcherRProj a).idxOf a.rAttr)
@@ -432,50 +453,60 @@ theorem matcherRowSpec_proj (a : MatcherArgs) (tok : Option (String → List Tok
   have e3 : (if (matcherOutCfg a).hasOut then
         cr.cell 0 :: getOutputRow (matcherOutCfg a) (((matcherLProj a).map l.colIdx).map ls.cell)
           (((matcherRProj a).map r.colIdx).map rs.cell)
-      else [cr.cell 0, ls.cell (l.colIdx a.lKey), rs.cell (r.colIdx a.rKey)])
-      = cr.cell 0 :: ([ls.cell (l.colIdx a.lKey), rs.cell (r.colIdx a.rKey)] ++
+      else [cr.cell 0, lk, rk])
+      = cr.cell 0 :: ([if ((removeRedundantAttrs a.lOut a.lKey).isSome || (removeRedundantAttrs a.rOut a.rKey).isSome)
+                        then ls.cell (l.colIdx a.lKey) else lk,
+                       if ((removeRedundantAttrs a.lOut a.lKey).isSome || (removeRedundantAttrs a.rOut a.rKey).isSome)
+                        then rs.cell (r.colIdx a.rKey) else rk] ++
         ((removeRedundantAttrs a.lOut a.lKey).getD []).map (fun x => ls.cell (l.colIdx x)) ++
         ((removeRedundantAttrs a.rOut a.rKey).getD []).map (fun x => rs.cell (r.colIdx x))) := by
     have hf := RT.outputRow_faithful a.toTableArgs l r ls rs
-    have hk1 : Row.cell (((matcherLProj a).map l.colIdx).map ls.cell) (matcherOutCfg a).lKey
-        = ls.cell (l.colIdx a.lKey) := RT.lRow_key a.toTableArgs l ls
-    have hk2 : Row.cell (((matcherRProj a).map r.colIdx).map rs.cell) (matcherOutCfg a).rKey
-        = rs.cell (r.colIdx a.rKey) := RT.rRow_key a.toTableArgs r rs
     change outputRow (matcherOutCfg a) (((matcherLProj a).map l.colIdx).map ls.cell)
       (((matcherRProj a).map r.colIdx).map rs.cell) = _ at hf
     unfold outputRow at hf
+    have hho : (matcherOutCfg a).hasOut
+        = ((removeRedundantAttrs a.lOut a.lKey).isSome || (removeRedundantAttrs a.rOut a.rKey).isSome) := rfl
+    rw [← hho]
     split
     · next h => rw [if_pos h] at hf; rw [hf]; rfl
     · next h =>
-      rw [if_neg h, hk1, hk2] at hf
-      exact congrArg (List.cons (cr.cell 0)) hf
-  unfold matcherRowSpec matcherPairRaw
+      rw [hho] at h
+      simp only [Bool.or_eq_true, not_or, Bool.not_eq_true, Option.isSome_eq_false_iff,
+        Option.isNone_iff_eq_none] at h
+      rw [h.1, h.2]
+      rfl
+  unfold matcherRowSpec matcherPairRawK
   simp only [e1, e2, e3]
   cases tok <;> rfl
 
-/-- `matcherTableSpec` (lookups in dicts of projected rows) in terms of the source rows of the two tables -/
+theorem matcherRowSpec_proj (a : MatcherArgs) (tok : Option (String → List Tok)) (sim : SimArg → SimArg → PyV)
+    (l r : Frame) (cr ls rs : Row) :
+    matcherRowSpec a (matcherOutCfg a) tok sim ((matcherLProj a).idxOf a.lAttr) ((matcherRProj a).idxOf a.rAttr) cr
+        (((matcherLProj a).map l.colIdx).map ls.cell) (((matcherRProj a).map r.colIdx).map rs.cell)
+        (ls.cell (l.colIdx a.lKey)) (rs.cell (r.colIdx a.rKey))
+      = matcherPairRaw a tok sim l r (cr.cell 0) ls rs := by
+  rw [matcherRowSpec_projK, matcherPairRawK_self]
+
+/-- `matcherTableSpec` (lookups in dicts of projected rows) in terms of the source rows of the two tables: the rows
+    whose keys are Python-equal to the candidate's key cells -/
 theorem matcherTableSpec_eq (a : MatcherArgs) (t : Option TokObj) (toks : TokFn) (sim : SimArg → SimArg → PyV)
-    (c l r : Frame) (hlk : (l.col a.lKey).Nodup) (hrk : (r.col a.rKey).Nodup) (cr : Row) :
+    (c l r : Frame) (hlk : PyDistinct (l.col a.lKey)) (hrk : PyDistinct (r.col a.rKey)) (cr : Row) :
     matcherTableSpec a t toks sim c l r cr =
-      match l.rows.find? (fun s => s.cell (l.colIdx a.lKey) == cr.cell (c.colIdx a.candLKey)),
-            r.rows.find? (fun s => s.cell (r.colIdx a.rKey) == cr.cell (c.colIdx a.candRKey)) with
-      | some ls, some rs => matcherPairRaw a (t.map (fun tk => toks tk.returnSet)) sim l r (cr.cell 0) ls rs
+      match l.rows.find? (fun s => (s.cell (l.colIdx a.lKey)).pyEq (cr.cell (c.colIdx a.candLKey))),
+            r.rows.find? (fun s => (s.cell (r.colIdx a.rKey)).pyEq (cr.cell (c.colIdx a.candRKey))) with
+      | some ls, some rs => matcherPairRawK a (t.map (fun tk => toks tk.returnSet)) sim l r (cr.cell 0)
+          (cr.cell (c.colIdx a.candLKey)) (cr.cell (c.colIdx a.candRKey)) ls rs
       | _, _ => none := by
   unfold matcherTableSpec matcherSpecFn
   rw [matcherLRows_lookup a l hlk, matcherRRows_lookup a r hrk]
-  cases hfl : l.rows.find? (fun s => s.cell (l.colIdx a.lKey) == cr.cell (c.colIdx a.candLKey)) with
+  cases hfl : l.rows.find? (fun s => (s.cell (l.colIdx a.lKey)).pyEq (cr.cell (c.colIdx a.candLKey))) with
   | none => rfl
   | some ls =>
-    cases hfr : r.rows.find? (fun s => s.cell (r.colIdx a.rKey) == cr.cell (c.colIdx a.candRKey)) with
+    cases hfr : r.rows.find? (fun s => (s.cell (r.colIdx a.rKey)).pyEq (cr.cell (c.colIdx a.candRKey))) with
     | none => rfl
     | some rs =>
-      have hkl : ls.cell (l.colIdx a.lKey) = cr.cell (c.colIdx a.candLKey) := by
-        simpa using List.find?_some hfl
-      have hkr : rs.cell (r.colIdx a.rKey) = cr.cell (c.colIdx a.candRKey) := by
-        simpa using List.find?_some hfr
       simp only [Option.map_some]
-      rw [← hkl, ← hkr]
-      exact matcherRowSpec_proj a _ sim l r cr ls rs
+      exact matcherRowSpec_projK a _ sim l r cr ls rs _ _
 
 theorem matcherTableSpec_cell_zero (a : MatcherArgs) (t : Option TokObj) (toks : TokFn) (sim : SimArg → SimArg → PyV)
     (c l r : Frame) (cr row : Row) (h : matcherTableSpec a t toks sim c l r cr = some row) :
@@ -502,12 +533,12 @@ theorem filterMap_cell_zero_sublist (f : Row → Option Row) (rows : List Row)
 
 /-! ## 4. totality of `apply_matcher` on validated arguments -/
 
-/-- (C05 end to end, one validation hypothesis) for validated arguments, candidate keys present in the
+/-- (C05 end to end, one validation hypothesis) for validated arguments, candidate keys present (`PyMem`: up to Python equality) in the
     tables and a candset of fewer than 2⁴⁰ rows, `apply_matcher` returns a frame whose rows are the spec rows -/
 theorem applyMatcher_rows' (a : MatcherArgs) (t : Option TokObj) (toks : TokFn) (sim : SimArg → SimArg → PyV) (cpu : Int)
     (c l r : Frame) (hv : validateMatcher a t = .ok (c, l, r))
-    (hl : ∀ cr ∈ c.rows, cr.cell (c.colIdx a.candLKey) ∈ l.col a.lKey)
-    (hr : ∀ cr ∈ c.rows, cr.cell (c.colIdx a.candRKey) ∈ r.col a.rKey)
+    (hl : ∀ cr ∈ c.rows, PyMem (cr.cell (c.colIdx a.candLKey)) (l.col a.lKey))
+    (hr : ∀ cr ∈ c.rows, PyMem (cr.cell (c.colIdx a.candRKey)) (r.col a.rKey))
     (hlen : c.rows.length < 2 ^ 40)
     (hstr : t.isSome → Props.StrColumn l a.lAttr ∧ Props.StrColumn r a.rAttr) :
     ∃ f, applyMatcher a t toks sim cpu = .ok f ∧
@@ -587,8 +618,8 @@ def candsetBody (a : CandsetArgs) (fp : Cell → Cell → Except PyErr Bool) (cp
   let labelled := c.rows.zip (c.index ++ List.replicate (c.rows.length - c.index.length) Cell.missing)
   let chunks ← (chunksFor labelled a.nJobs cpu).mapM (fun ch =>
     ch.filterMapM (fun ((cr, lab) : Row × Cell) => do
-      let lRow ← match Dict.get? lDict (cr.cell li) with | some x => pure x | none => throw PyErr.other
-      let rRow ← match Dict.get? rDict (cr.cell ri) with | some x => pure x | none => throw PyErr.other
+      let lRow ← match Dict.getPy? lDict (cr.cell li) with | some x => pure x | none => throw PyErr.other
+      let rRow ← match Dict.getPy? rDict (cr.cell ri) with | some x => pure x | none => throw PyErr.other
       let drop ← fp (lRow.cell (lProj.idxOf a.lAttr)) (rRow.cell (rProj.idxOf a.rAttr))
       pure (if !drop then some (cr, lab) else none)))
   let kept := chunks.flatten
@@ -624,10 +655,10 @@ theorem except_mapM_mono {ε α β : Type} (f g : α → Except ε β) (l : List
 def candsetStep (a : CandsetArgs) (fp : Cell → Cell → Except PyErr Bool) (c l r : Frame) :
     Row × Cell → Except PyErr (Option (Row × Cell)) :=
   fun ((cr, lab) : Row × Cell) => do
-    let lRow ← match Dict.get? (buildDict (l.rows.map (fun row => [row.cell (l.colIdx a.lKey), row.cell (l.colIdx a.lAttr)]))
+    let lRow ← match Dict.getPy? (buildDict (l.rows.map (fun row => [row.cell (l.colIdx a.lKey), row.cell (l.colIdx a.lAttr)]))
         ([a.lKey, a.lAttr].idxOf a.lKey)) (cr.cell (c.colIdx a.candLKey)) with
       | some x => pure x | none => throw PyErr.other
-    let rRow ← match Dict.get? (buildDict (r.rows.map (fun row => [row.cell (r.colIdx a.rKey), row.cell (r.colIdx a.rAttr)]))
+    let rRow ← match Dict.getPy? (buildDict (r.rows.map (fun row => [row.cell (r.colIdx a.rKey), row.cell (r.colIdx a.rAttr)]))
         ([a.rKey, a.rAttr].idxOf a.rKey)) (cr.cell (c.colIdx a.candRKey)) with
       | some x => pure x | none => throw PyErr.other
     let drop ← fp (lRow.cell ([a.lKey, a.lAttr].idxOf a.lAttr)) (rRow.cell ([a.rKey, a.rAttr].idxOf a.rAttr))
@@ -645,12 +676,12 @@ theorem candsetStep_mono (a : CandsetArgs) (fp : Cell → Cell → Except PyErr 
   obtain ⟨cr, lab⟩ := x
   unfold candsetStep at h ⊢
   dsimp only at h ⊢
-  cases h1 : Dict.get? (buildDict (l.rows.map (fun row => [row.cell (l.colIdx a.lKey), row.cell (l.colIdx a.lAttr)]))
+  cases h1 : Dict.getPy? (buildDict (l.rows.map (fun row => [row.cell (l.colIdx a.lKey), row.cell (l.colIdx a.lAttr)]))
       ([a.lKey, a.lAttr].idxOf a.lKey)) (cr.cell (c.colIdx a.candLKey)) with
   | none => rw [h1] at h; cases h
   | some lRow =>
     rw [h1] at h
-    cases h2 : Dict.get? (buildDict (r.rows.map (fun row => [row.cell (r.colIdx a.rKey), row.cell (r.colIdx a.rAttr)]))
+    cases h2 : Dict.getPy? (buildDict (r.rows.map (fun row => [row.cell (r.colIdx a.rKey), row.cell (r.colIdx a.rAttr)]))
         ([a.rKey, a.rAttr].idxOf a.rKey)) (cr.cell (c.colIdx a.candRKey)) with
     | none => rw [h2] at h; cases h
     | some rRow =>
@@ -860,46 +891,49 @@ theorem validateCandset_error_kind (a : CandsetArgs) (e : PyErr)
 theorem candLabelled_length (c : Frame) : (candLabelled c).length = c.rows.length := by
   rw [← candLabelled_map_fst c, List.length_map]
 
-/-- totality (and rows) of `filter_candset` on validated arguments, candidate keys present, `< 2⁴⁰` rows -/
+/-- totality (and rows) of `filter_candset` on validated arguments, candidate keys present (`PyMem`: up to
+    Python equality), `< 2⁴⁰` rows -/
 theorem filterCandset_total (a : CandsetArgs) (fp : Cell → Cell → Except PyErr Bool) (cpu : Int) (c l r : Frame)
     (hv : validateCandset a = .ok (c, l, r))
-    (hl : ∀ cr ∈ c.rows, cr.cell (c.colIdx a.candLKey) ∈ l.col a.lKey)
-    (hr : ∀ cr ∈ c.rows, cr.cell (c.colIdx a.candRKey) ∈ r.col a.rKey)
+    (hl : ∀ cr ∈ c.rows, PyMem (cr.cell (c.colIdx a.candLKey)) (l.col a.lKey))
+    (hr : ∀ cr ∈ c.rows, PyMem (cr.cell (c.colIdx a.candRKey)) (r.col a.rKey))
     (hlen : c.rows.length < 2 ^ 40)
     (hfp : ∀ ls ∈ l.rows, ∀ rs ∈ r.rows, ∃ b, fp (ls.cell (l.colIdx a.lAttr)) (rs.cell (r.colIdx a.rAttr)) = .ok b) :
     ∃ f, filterCandset a fp cpu = .ok f ∧ f.columns = c.columns ∧ f.dtypes = c.dtypes ∧
       f.rows.Sublist c.rows := by
   have hV := (validateCandset_ok_iff a c l r).1 hv
   let lval : Row → Cell := fun cr =>
-    match l.rows.find? (fun s => s.cell (l.colIdx a.lKey) == cr.cell (c.colIdx a.candLKey)) with
+    match l.rows.find? (fun s => (s.cell (l.colIdx a.lKey)).pyEq (cr.cell (c.colIdx a.candLKey))) with
     | some s => s.cell (l.colIdx a.lAttr)
     | none => .missing
   let rval : Row → Cell := fun cr =>
-    match r.rows.find? (fun s => s.cell (r.colIdx a.rKey) == cr.cell (c.colIdx a.candRKey)) with
+    match r.rows.find? (fun s => (s.cell (r.colIdx a.rKey)).pyEq (cr.cell (c.colIdx a.candRKey))) with
     | some s => s.cell (r.colIdx a.rAttr)
     | none => .missing
-  have hl' : ∀ cr ∈ c.rows, ∃ lrow ∈ l.rows, lrow.cell (l.colIdx a.lKey) = cr.cell (c.colIdx a.candLKey) ∧
-      lrow.cell (l.colIdx a.lAttr) = lval cr := by
+  have hl' : ∀ cr ∈ c.rows, ∃ row ∈ l.rows, (row.cell (l.colIdx a.lKey)).pyEq (cr.cell (c.colIdx a.candLKey)) = true ∧
+      row.cell (l.colIdx a.lAttr) = lval cr := by
     intro cr hcr
-    obtain ⟨s0, hs0, hk0⟩ := List.mem_map.1 (hl cr hcr)
-    cases hf : l.rows.find? (fun s => s.cell (l.colIdx a.lKey) == cr.cell (c.colIdx a.candLKey)) with
+    obtain ⟨k0, hk0m, hk0⟩ := hl cr hcr
+    obtain ⟨s0, hs0, rfl⟩ := List.mem_map.1 hk0m
+    cases hf : l.rows.find? (fun s => (s.cell (l.colIdx a.lKey)).pyEq (cr.cell (c.colIdx a.candLKey))) with
     | none =>
-      have := List.find?_eq_none.1 hf s0 hs0
-      simp [hk0] at this
+      exact absurd hk0 (List.find?_eq_none.1 hf s0 hs0)
     | some s =>
-      refine ⟨s, List.mem_of_find?_eq_some hf, by simpa using List.find?_some hf, ?_⟩
+      refine ⟨s, List.mem_of_find?_eq_some hf,
+        List.find?_some (p := fun s : Row => (s.cell (l.colIdx a.lKey)).pyEq (cr.cell (c.colIdx a.candLKey))) hf, ?_⟩
       show _ = (match l.rows.find? _ with | some s => _ | none => _)
       rw [hf]
-  have hr' : ∀ cr ∈ c.rows, ∃ rrow ∈ r.rows, rrow.cell (r.colIdx a.rKey) = cr.cell (c.colIdx a.candRKey) ∧
-      rrow.cell (r.colIdx a.rAttr) = rval cr := by
+  have hr' : ∀ cr ∈ c.rows, ∃ row ∈ r.rows, (row.cell (r.colIdx a.rKey)).pyEq (cr.cell (c.colIdx a.candRKey)) = true ∧
+      row.cell (r.colIdx a.rAttr) = rval cr := by
     intro cr hcr
-    obtain ⟨s0, hs0, hk0⟩ := List.mem_map.1 (hr cr hcr)
-    cases hf : r.rows.find? (fun s => s.cell (r.colIdx a.rKey) == cr.cell (c.colIdx a.candRKey)) with
+    obtain ⟨k0, hk0m, hk0⟩ := hr cr hcr
+    obtain ⟨s0, hs0, rfl⟩ := List.mem_map.1 hk0m
+    cases hf : r.rows.find? (fun s => (s.cell (r.colIdx a.rKey)).pyEq (cr.cell (c.colIdx a.candRKey))) with
     | none =>
-      have := List.find?_eq_none.1 hf s0 hs0
-      simp [hk0] at this
+      exact absurd hk0 (List.find?_eq_none.1 hf s0 hs0)
     | some s =>
-      refine ⟨s, List.mem_of_find?_eq_some hf, by simpa using List.find?_some hf, ?_⟩
+      refine ⟨s, List.mem_of_find?_eq_some hf,
+        List.find?_some (p := fun s : Row => (s.cell (r.colIdx a.rKey)).pyEq (cr.cell (c.colIdx a.candRKey))) hf, ?_⟩
       show _ = (match r.rows.find? _ with | some s => _ | none => _)
       rw [hf]
   have hok : ∀ (x : String) (f : Frame), f.hasCol x = true → validateAttr x f = .ok () := by
@@ -980,10 +1014,10 @@ where
 
 /-- one candidate row whose two keys resolve: the step is `filter_pair` on the two referenced values -/
 theorem candsetStep_of_lookup (a : CandsetArgs) (fp : Cell → Cell → Except PyErr Bool) (c l r : Frame)
-    (hkl : (l.col a.lKey).Nodup) (hkr : (r.col a.rKey).Nodup) (x : Row × Cell) (ls rs : Row)
+    (hkl : PyDistinct (l.col a.lKey)) (hkr : PyDistinct (r.col a.rKey)) (x : Row × Cell) (ls rs : Row)
     (hls : ls ∈ l.rows) (hrs : rs ∈ r.rows)
-    (h1 : ls.cell (l.colIdx a.lKey) = x.1.cell (c.colIdx a.candLKey))
-    (h2 : rs.cell (r.colIdx a.rKey) = x.1.cell (c.colIdx a.candRKey)) :
+    (h1 : (ls.cell (l.colIdx a.lKey)).pyEq (x.1.cell (c.colIdx a.candLKey)) = true)
+    (h2 : (rs.cell (r.colIdx a.rKey)).pyEq (x.1.cell (c.colIdx a.candRKey)) = true) :
     candsetStep a fp c l r x =
       (fp (ls.cell (l.colIdx a.lAttr)) (rs.cell (r.colIdx a.rAttr)) >>= fun drop =>
         pure (if !drop then some x else none)) := by
@@ -998,18 +1032,18 @@ theorem candsetStep_of_lookup (a : CandsetArgs) (fp : Cell → Cell → Except P
     (for `filterPairPy` / `overlapFilterPairPy`: TypeError) -/
 theorem filterCandset_raises (a : CandsetArgs) (fp : Cell → Cell → Except PyErr Bool) (cpu : Int) (c l r : Frame)
     (hv : validateCandset a = .ok (c, l, r))
-    (hl : ∀ cr ∈ c.rows, cr.cell (c.colIdx a.candLKey) ∈ l.col a.lKey)
-    (hr : ∀ cr ∈ c.rows, cr.cell (c.colIdx a.candRKey) ∈ r.col a.rKey)
+    (hl : ∀ cr ∈ c.rows, PyMem (cr.cell (c.colIdx a.candLKey)) (l.col a.lKey))
+    (hr : ∀ cr ∈ c.rows, PyMem (cr.cell (c.colIdx a.candRKey)) (r.col a.rKey))
     (hlen : c.rows.length < 2 ^ 40) (e : PyErr)
     (honly : ∀ x y e', fp x y = .error e' → e' = e)
     (hex : ∃ cr ∈ c.rows, ∃ ls ∈ l.rows, ∃ rs ∈ r.rows,
-      ls.cell (l.colIdx a.lKey) = cr.cell (c.colIdx a.candLKey) ∧
-      rs.cell (r.colIdx a.rKey) = cr.cell (c.colIdx a.candRKey) ∧
+      (ls.cell (l.colIdx a.lKey)).pyEq (cr.cell (c.colIdx a.candLKey)) = true ∧
+      (rs.cell (r.colIdx a.rKey)).pyEq (cr.cell (c.colIdx a.candRKey)) = true ∧
       fp (ls.cell (l.colIdx a.lAttr)) (rs.cell (r.colIdx a.rAttr)) = .error e) :
     filterCandset a fp cpu = .error e := by
   have hV := (validateCandset_ok_iff a c l r).1 hv
-  have hkl : (l.col a.lKey).Nodup := hV.lKeyValid.nodup
-  have hkr : (r.col a.rKey).Nodup := hV.rKeyValid.nodup
+  have hkl : PyDistinct (l.col a.lKey) := hV.lKeyValid.1
+  have hkr : PyDistinct (r.col a.rKey) := hV.rKeyValid.1
   have hflat : (chunksFor (candLabelled c) a.nJobs cpu).flatten = candLabelled c :=
     chunksFor_flatten _ _ _ (by rw [candLabelled_length]; exact hlen)
   have hmemc : ∀ ch ∈ chunksFor (candLabelled c) a.nJobs cpu, ∀ x ∈ ch, x.1 ∈ c.rows := by
@@ -1031,8 +1065,10 @@ theorem filterCandset_raises (a : CandsetArgs) (fp : Cell → Cell → Except Py
         cases he'
         obtain ⟨x, hx, hfx⟩ := except_mapM_error_inv _ _ _ hm
         have hxc := hmemc ch hch x hx
-        obtain ⟨ls', hls', hk1⟩ := List.mem_map.1 (hl x.1 hxc)
-        obtain ⟨rs', hrs', hk2⟩ := List.mem_map.1 (hr x.1 hxc)
+        obtain ⟨kl', hkl', hk1⟩ := hl x.1 hxc
+        obtain ⟨ls', hls', rfl⟩ := List.mem_map.1 hkl'
+        obtain ⟨kr', hkr', hk2⟩ := hr x.1 hxc
+        obtain ⟨rs', hrs', rfl⟩ := List.mem_map.1 hkr'
         rw [candsetStep_of_lookup a fp c l r hkl hkr x ls' rs' hls' hrs' hk1 hk2] at hfx
         cases hf : fp (ls'.cell (l.colIdx a.lAttr)) (rs'.cell (r.colIdx a.rAttr)) with
         | ok b => rw [hf] at hfx; cases hfx
@@ -1065,31 +1101,31 @@ theorem filterCandset_raises (a : CandsetArgs) (fp : Cell → Cell → Except Py
     is not a string ⇒ TypeError (values that no candidate row references are never tokenized on this path). -/
 theorem applyMatcher_nocache_typeErr (a : MatcherArgs) (tk : TokObj) (toks : TokFn) (sim : SimArg → SimArg → PyV)
     (cpu : Int) (c l r : Frame) (hv : validateMatcher a (some tk) = .ok (c, l, r))
-    (hl : ∀ cr ∈ c.rows, cr.cell (c.colIdx a.candLKey) ∈ l.col a.lKey)
-    (hr : ∀ cr ∈ c.rows, cr.cell (c.colIdx a.candRKey) ∈ r.col a.rKey)
+    (hl : ∀ cr ∈ c.rows, PyMem (cr.cell (c.colIdx a.candLKey)) (l.col a.lKey))
+    (hr : ∀ cr ∈ c.rows, PyMem (cr.cell (c.colIdx a.candRKey)) (r.col a.rKey))
     (hlen : c.rows.length < 2 ^ 40)
     (hbig : ¬ (l.rows.length + r.rows.length < c.rows.length * 2))
     (hex : ∃ cr ∈ c.rows, ∃ ls ∈ l.rows, ∃ rs ∈ r.rows,
-      ls.cell (l.colIdx a.lKey) = cr.cell (c.colIdx a.candLKey) ∧
-      rs.cell (r.colIdx a.rKey) = cr.cell (c.colIdx a.candRKey) ∧
+      (ls.cell (l.colIdx a.lKey)).pyEq (cr.cell (c.colIdx a.candLKey)) = true ∧
+      (rs.cell (r.colIdx a.rKey)).pyEq (cr.cell (c.colIdx a.candRKey)) = true ∧
       (ls.cell (l.colIdx a.lAttr)).isMissing = false ∧ (rs.cell (r.colIdx a.rAttr)).isMissing = false ∧
       ¬ ((ls.cell (l.colIdx a.lAttr)).isStr = true ∧ (rs.cell (r.colIdx a.rAttr)).isStr = true)) :
     applyMatcher a (some tk) toks sim cpu = .error .typeErr := by
   have hV := (validateMatcher_ok_iff a (some tk) c l r).1 hv
-  have hlk : ((matcherLRows a l).map (·.cell ((matcherLProj a).idxOf a.lKey))).Nodup := by
-    rw [matcherLRows_keys]; exact hV.lKeyValid.nodup
-  have hrk : ((matcherRRows a r).map (·.cell ((matcherRProj a).idxOf a.rKey))).Nodup := by
-    rw [matcherRRows_keys]; exact hV.rKeyValid.nodup
+  have hlk : PyDistinct ((matcherLRows a l).map (·.cell ((matcherLProj a).idxOf a.lKey))) := by
+    rw [matcherLRows_keys]; exact hV.lKeyValid.1
+  have hrk : PyDistinct ((matcherRRows a r).map (·.cell ((matcherRProj a).idxOf a.rKey))) := by
+    rw [matcherRRows_keys]; exact hV.rKeyValid.1
   have hflat : (chunksFor c.rows a.nJobs cpu).flatten = c.rows := chunksFor_flatten _ _ _ hlen
   have hmem : ∀ ch ∈ chunksFor c.rows a.nJobs cpu, ∀ cr ∈ ch, cr ∈ c.rows := by
     intro ch hch cr hcr
     rw [← hflat]; exact List.mem_flatten.2 ⟨ch, hch, hcr⟩
-  have hsomeL : ∀ cr ∈ c.rows, (Dict.get? (buildDict (matcherLRows a l) ((matcherLProj a).idxOf a.lKey))
+  have hsomeL : ∀ cr ∈ c.rows, (Dict.getPy? (buildDict (matcherLRows a l) ((matcherLProj a).idxOf a.lKey))
       (cr.cell (c.colIdx a.candLKey))).isSome := by
     intro cr hcr
     apply buildDict_isSome_of_mem _ _ hlk
     rw [matcherLRows_keys]; exact hl cr hcr
-  have hsomeR : ∀ cr ∈ c.rows, (Dict.get? (buildDict (matcherRRows a r) ((matcherRProj a).idxOf a.rKey))
+  have hsomeR : ∀ cr ∈ c.rows, (Dict.getPy? (buildDict (matcherRRows a r) ((matcherRProj a).idxOf a.rKey))
       (cr.cell (c.colIdx a.candRKey))).isSome := by
     intro cr hcr
     apply buildDict_isSome_of_mem _ _ hrk
@@ -1179,24 +1215,22 @@ theorem applyMatcher_nocache_typeErr (a : MatcherArgs) (tk : TokObj) (toks : Tok
           ((matcherRProj a).idxOf a.rKey) ((matcherRProj a).idxOf a.rAttr)
           (matcherOutCfg a) (some (toks tk.returnSet)) sim none cr0 = .error .typeErr := by
         rw [matcherRowM_none]
-        have hL : Dict.get? (buildDict (matcherLRows a l) ((matcherLProj a).idxOf a.lKey)) (cr0.cell (c.colIdx a.candLKey))
+        have hL : Dict.getPy? (buildDict (matcherLRows a l) ((matcherLProj a).idxOf a.lKey)) (cr0.cell (c.colIdx a.candLKey))
             = some (((matcherLProj a).map l.colIdx).map ls.cell) := by
-          have := buildDict_get (matcherLRows a l) ((matcherLProj a).idxOf a.lKey) hlk
-            (((matcherLProj a).map l.colIdx).map ls.cell)
-            (List.mem_map_of_mem (f := fun row : Row => ((matcherLProj a).map l.colIdx).map row.cell) hls)
-          rw [← hk1]
           have hkc : Row.cell (((matcherLProj a).map l.colIdx).map ls.cell) ((matcherLProj a).idxOf a.lKey)
               = ls.cell (l.colIdx a.lKey) := (projection_faithful l a.lKey a.lAttr a.lOut ls).1
-          rw [← hkc]; exact this
-        have hR : Dict.get? (buildDict (matcherRRows a r) ((matcherRProj a).idxOf a.rKey)) (cr0.cell (c.colIdx a.candRKey))
+          exact buildDict_get (matcherLRows a l) ((matcherLProj a).idxOf a.lKey) hlk
+            (((matcherLProj a).map l.colIdx).map ls.cell)
+            (List.mem_map_of_mem (f := fun row : Row => ((matcherLProj a).map l.colIdx).map row.cell) hls) _
+            (by rw [hkc]; exact hk1)
+        have hR : Dict.getPy? (buildDict (matcherRRows a r) ((matcherRProj a).idxOf a.rKey)) (cr0.cell (c.colIdx a.candRKey))
             = some (((matcherRProj a).map r.colIdx).map rs.cell) := by
-          have := buildDict_get (matcherRRows a r) ((matcherRProj a).idxOf a.rKey) hrk
-            (((matcherRProj a).map r.colIdx).map rs.cell)
-            (List.mem_map_of_mem (f := fun row : Row => ((matcherRProj a).map r.colIdx).map row.cell) hrs)
-          rw [← hk2]
           have hkc : Row.cell (((matcherRProj a).map r.colIdx).map rs.cell) ((matcherRProj a).idxOf a.rKey)
               = rs.cell (r.colIdx a.rKey) := (projection_faithful r a.rKey a.rAttr a.rOut rs).1
-          rw [← hkc]; exact this
+          exact buildDict_get (matcherRRows a r) ((matcherRProj a).idxOf a.rKey) hrk
+            (((matcherRProj a).map r.colIdx).map rs.cell)
+            (List.mem_map_of_mem (f := fun row : Row => ((matcherRProj a).map r.colIdx).map row.cell) hrs) _
+            (by rw [hkc]; exact hk2)
         rw [hL, hR]
         have e1 : Row.cell (((matcherLProj a).map l.colIdx).map ls.cell) ((matcherLProj a).idxOf a.lAttr)
             = ls.cell (l.colIdx a.lAttr) := (projection_faithful l a.lKey a.lAttr a.lOut ls).2.1
